@@ -58,7 +58,8 @@ type propCfg struct {
 }
 
 var propCfgs = map[string]propCfg{
-	"C04": {Level: "fault_enumeration", Quick: tierCfg{Runs: 96, BudgetS: 50, MinS: 40}, Thorough: tierCfg{Runs: 4000, BudgetS: 600, MinS: 120}},
+	"C04": {Level: "fault_enumeration", Quick: tierCfg{Runs: 96, BudgetS: 35, MinS: 30}, Thorough: tierCfg{Runs: 4000, BudgetS: 600, MinS: 120}},
+	"C05": {Level: "fault_enumeration", Quick: tierCfg{Runs: 96, BudgetS: 35, MinS: 30}, Thorough: tierCfg{Runs: 4000, BudgetS: 600, MinS: 120}},
 }
 
 func engineOf(id string) *engine {
